@@ -647,22 +647,19 @@ fn small_conversions(rep: &mut Report) {
 // ------------------------------------------------------------------------------------------------
 
 /// -1 = must be Black, +1 = must be White, 0 = either is acceptable.
-/// Three brightness definitions on channels normalised by their maxima: channel mean, Rec.601
-/// luma, raw sum / maximal raw sum. The answer is only forced when all three lie outside a band of
-/// +-1/32 around 1/2: inside the band the coarsest channel's quantisation step (1/31) and integer
-/// rounding of a correct implementation may legitimately tip the balance either way.
+/// Three brightness definitions on channels normalised by their maxima, compared with 1/2 exactly:
+/// channel mean, Rec.601 luma, raw sum / maximal raw sum. The answer is forced only where all
+/// three agree (exact integer arithmetic, so a threshold that is off by one count is visible).
 fn bw_verdict(r: u64, g: u64, b: u64, rm: u64, gm: u64, bm: u64) -> i32 {
     let den = rm * gm * bm;
     let (rn, gn, bn) = (r * gm * bm, g * rm * bm, b * rm * gm);
-    // x/den compared with 1/2 +- 1/32  <=>  32*x compared with 17*den / 15*den
-    let above = |num: u64, d: u64| 32 * num > 17 * d;
-    let below = |num: u64, d: u64| 32 * num < 15 * d;
-    let mean = (rn + gn + bn, 3 * den);
-    let luma = (299 * rn + 587 * gn + 114 * bn, 1000 * den);
-    let raw = (r + g + b, rm + gm + bm);
-    if above(mean.0, mean.1) && above(luma.0, luma.1) && above(raw.0, raw.1) {
+    let mean = (2 * (rn + gn + bn)).cmp(&(3 * den));
+    let luma = (2 * (299 * rn + 587 * gn + 114 * bn)).cmp(&(1000 * den));
+    let raw = (2 * (r + g + b)).cmp(&(rm + gm + bm));
+    use std::cmp::Ordering::*;
+    if mean == Greater && luma == Greater && raw == Greater {
         1
-    } else if below(mean.0, mean.1) && below(luma.0, luma.1) && below(raw.0, raw.1) {
+    } else if mean == Less && luma == Less && raw == Less {
         -1
     } else {
         0
@@ -694,7 +691,7 @@ fn check_bw(rep: &mut Report, ty: &'static str, class: &'static str, entry: &'st
             entry,
             class,
             &["not-nearest", "expected-white"],
-            format!("Color::from({}({},{},{})) = Black although channel mean, Rec.601 luma and raw sum are all above 17/32 of full scale (maxima {:?})", ty, r, g, b, max),
+            format!("Color::from({}({},{},{})) = Black although channel mean, Rec.601 luma and raw sum are all above half scale (maxima {:?})", ty, r, g, b, max),
             case(),
         );
     } else if v < 0 && got != Color::Black {
@@ -704,7 +701,7 @@ fn check_bw(rep: &mut Report, ty: &'static str, class: &'static str, entry: &'st
             entry,
             class,
             &["not-nearest", "expected-black"],
-            format!("Color::from({}({},{},{})) = White although channel mean, Rec.601 luma and raw sum are all below 15/32 of full scale (maxima {:?})", ty, r, g, b, max),
+            format!("Color::from({}({},{},{})) = White although channel mean, Rec.601 luma and raw sum are all below half scale (maxima {:?})", ty, r, g, b, max),
             case(),
         );
     }
